@@ -306,7 +306,7 @@ fn replay(args: &Args) {
                 let exp = expected_rows(b, text);
                 let parsed = guarded(|| Dsv::parse_with_config(text, &c.dsv()));
                 let mut bad = |api: &str, n: i64, i: i64, got: Value, want: Value| {
-                    if out.n < 400 {
+                    if out.n < 500_000 {
                         out.emit(json!({"api":api,"variant":vname,"d":c.d,"q":c.q,"nl":c.n,"cls":cls,"text":bytes_json(text),
                                         "n":n,"i":i,"got":got,"want":want}));
                     } else {
